@@ -324,6 +324,10 @@ STEER_CONFIGS = {
                          pub_topics={p: ["a"] for p in ["h0", "h1", "h2", "h3", "h4"]}, downs=[], last_ids={"s0": "h2", "s1": "h1"},
                          pub_after={"h1": "h0", "h2": "h1", "h3": "h2", "h4": "h3"}, cancel_subs=[], faults=1, rcap=4, sub_after=5, fault_kinds=("send",), fault_odds=1), 0, ["finite-manual"],
                     "a replayer of 4 slots after 5 messages (the ring has wrapped: a replay walks over the physical end of the buffer), one failing replayed or live Send"),
+    "resume-wrap-evicted": (dict(subs=["s0", "s1"], sub_topics={"s0": ["a"], "s1": ["a"]}, pubs=["h0", "h1", "h2", "h3", "h4"],
+                                 pub_topics={p: ["a"] for p in ["h0", "h1", "h2", "h3", "h4"]}, downs=[], last_ids={"s0": "h0", "s1": "h3"},
+                                 pub_after={"h1": "h0", "h2": "h1", "h3": "h2", "h4": "h3"}, cancel_subs=[], faults=0, rcap=4, sub_after=5), 0, ["finite-auto", "finite-manual"],
+                            "a replayer of 4 slots after 5 messages (wrapped, the oldest message not in the first slot): one subscriber presents an evicted ID, one a buffered one"),
     "shutdown": (dict(subs=["s0", "s1"], sub_topics={"s0": ["a"], "s1": ["a"]}, pubs=["p0k0", "p1k0"], pub_topics={"p0k0": ["a"], "p1k0": ["a"]},
                       downs=["k1", "k2"], last_ids={}, pub_after={}, cancel_subs=["s0"], ctx_downs=["k2"], faults=1), 1, ["none", "finite-manual"],
                  "2 subscribers, 2 concurrent publishers, 2 Shutdown calls (one with a done context) after the first message, one fault, a cancellation"),
@@ -524,7 +528,7 @@ def run_C04(ctx):
     agg = new_agg()
     model_check(ctx, ["resume", "resume-evicting"] if ctx.quick else ["resume", "resume-evicting", "big-faults"], agg)
     trace_check(ctx, "resume", 500 if ctx.quick else 6000, "resume", agg)
-    steer_check(ctx, ["resume", "resume-small", "resume-wrap"], 150 if ctx.quick else 3000, "c04", agg)
+    steer_check(ctx, ["resume", "resume-small", "resume-wrap", "resume-wrap-evicted"], 150 if ctx.quick else 3000, "c04", agg)
     joe_evidence(ctx, agg, "Resume / NoDuplicates and the replay guards (a replayed Send must be the next missed event) over all interleavings of Subscribe with concurrent "
                  "Publish calls; traces with the real FiniteReplayer / ValidReplayer behind a recording wrapper, both ID modes; " + COMMON_RULE,
                  ["replayer capacity / TTL large enough to hold everything published in a scenario"])
